@@ -643,7 +643,13 @@ func (in *inst) exercise(c *cmd, bad func(string, string, string)) {
 				fmt.Sprintf("after %s, sending one %d-byte Interest through face %d (MTU %d, fragmentation %s) panics in the face's send path: %s at %s", c.label, len(probe), id, l.MTU(), frag, msg, frame))
 			continue
 		}
-		if frames := t.VerifTake(); len(frames) == 0 {
+		frames := t.VerifTake()
+		for _, fr := range frames {
+			if len(fr) > l.MTU() {
+				bad("C17.alive", "face unusable: frame over the MTU", fmt.Sprintf("after %s, face %d (MTU %d, fragmentation %s) emits a %d-byte frame for a %d-byte Interest; a transport drops it", c.label, id, l.MTU(), frag, len(fr), len(probe)))
+			}
+		}
+		if len(frames) == 0 {
 			bad("C17.alive", "face unusable: nothing sent", fmt.Sprintf("after %s, face %d (MTU %d, fragmentation %s) emits no frame for a %d-byte Interest", c.label, id, l.MTU(), frag, len(probe)))
 			continue
 		}
@@ -657,5 +663,109 @@ func (in *inst) exercise(c *cmd, bad func(string, string, string)) {
 				fmt.Sprintf("after %s (answered 200), sending one %d-byte Data with a 32-byte PIT token and a congestion mark through face %d (MTU %d, fragmentation %s) panics in the face's send path (the face's send goroutine has no recover: the daemon dies; the token is chosen by the downstream): %s at %s", c.label, len(dataWire), id, l.MTU(), frag, msg, frame))
 		}
 		t.VerifTake()
+
+		// probe 3: packets that need fragmentation at the face's current MTU (MTU+200 and 3*MTU
+		// bytes, capped at the maximum packet size), sent the way the forwarder sends to this face
+		// (incoming face id supplied: the link service attaches it when local fields are on). Every
+		// emitted frame must fit the MTU (a transport drops larger ones) and the fragments must
+		// reassemble to exactly the packet.
+		for _, target := range []int{l.MTU() + 200, 3 * l.MTU()} {
+			big := probeData(target)
+			if len(big.wire) <= l.MTU() {
+				continue
+			}
+			// header fields at their widest encoding (8-byte face id and congestion mark): small
+			// numbers encode shorter than the reserve and would hide a reserve that is too small
+			wide := uint64(1) << 40
+			bp := &defn.Pkt{Name: big.l3.Data.NameV, L3: big.l3, Raw: big.wire, PitToken: tok, CongestionMark: utils.IdPtr(wide), IncomingFaceID: utils.IdPtr(wide)}
+			if msg, frame := guard(func() { face.VerifC17Send(ls, dispatch.OutPkt{Pkt: bp, PitToken: tok, InFace: utils.IdPtr(wide)}) }); msg != "" {
+				bad("C17.alive", fmt.Sprintf("face unusable: panic @ %s", frame),
+					fmt.Sprintf("after %s, sending one %d-byte Data through face %d (MTU %d, fragmentation %s) panics in the face's send path: %s at %s", c.label, len(big.wire), id, l.MTU(), frag, msg, frame))
+				break
+			}
+			frames := t.VerifTake()
+			if len(frames) == 0 && !ls.Options().IsFragmentationEnabled {
+				continue // over the MTU of a link without fragmentation: dropping is the specified behaviour
+			}
+			if kind, problem := checkFragments(frames, big.wire, l.MTU()); problem != "" {
+				bad("C17.alive", "face unusable for packets that need fragmentation: "+kind,
+					fmt.Sprintf("after %s, a %d-byte Data sent through face %d (MTU %d, fragmentation %s, local fields %v): %s", c.label, len(big.wire), id, l.MTU(), frag, ls.Options().IsIncomingFaceIndicationEnabled, problem))
+				break
+			}
+		}
 	}
+}
+
+type probePkt struct {
+	wire []byte
+	l3   *spec.Packet
+}
+
+var probeCache = map[int]probePkt{}
+
+// probeData returns a Data packet of roughly `target` bytes (never above the maximum packet size).
+func probeData(target int) probePkt {
+	if target > defn.MaxNDNPacketSize {
+		target = defn.MaxNDNPacketSize
+	}
+	n := target - 150
+	if n < 1 {
+		n = 1
+	}
+	if p, ok := probeCache[n]; ok {
+		return p
+	}
+	content := make([]byte, n)
+	for i := range content {
+		content[i] = byte(i*7 + i>>8)
+	}
+	d, err := spec.Spec{}.MakeData(nm("/c17/probe/big"), &ndn.DataConfig{ContentType: utils.IdPtr(ndn.ContentTypeBlob), Freshness: utils.IdPtr(vtime.Second)},
+		enc.Wire{content}, sec.NewSha256Signer())
+	if err != nil {
+		panic("HARNESS-BUG: big probe: " + err.Error())
+	}
+	w := d.Wire.Join()
+	l3, _, err := spec.ReadPacket(enc.NewBufferReader(w))
+	if err != nil || l3.Data == nil || len(w) > defn.MaxNDNPacketSize {
+		panic("HARNESS-BUG: big probe does not decode or is too large")
+	}
+	p := probePkt{wire: w, l3: l3}
+	probeCache[n] = p
+	return p
+}
+
+// checkFragments decodes the emitted LP frames with the harness's own reassembly (order of
+// emission, FragIndex/FragCount/Sequence consistency) and compares the result with the packet.
+func checkFragments(frames [][]byte, want []byte, mtu int) (kind, detail string) {
+	if len(frames) == 0 {
+		return "nothing sent", "nothing sent"
+	}
+	var got []byte
+	var base uint64
+	for i, fr := range frames {
+		if len(fr) > mtu {
+			return "frame over the MTU", fmt.Sprintf("frame over the MTU (a transport drops it): frame %d of %d is %d bytes, the MTU is %d", i+1, len(frames), len(fr), mtu)
+		}
+		p, _, err := spec.ReadPacket(enc.NewBufferReader(fr))
+		if err != nil || p.LpPacket == nil {
+			return "undecodable frame", fmt.Sprintf("frame %d does not decode as an LpPacket: %v", i+1, err)
+		}
+		lp := p.LpPacket
+		if len(frames) > 1 {
+			if lp.Sequence == nil || lp.FragIndex == nil || lp.FragCount == nil {
+				return "fragment fields missing", fmt.Sprintf("fragment %d lacks Sequence/FragIndex/FragCount", i+1)
+			}
+			if i == 0 {
+				base = *lp.Sequence
+			}
+			if *lp.FragIndex != uint64(i) || *lp.FragCount != uint64(len(frames)) || *lp.Sequence != base+uint64(i) {
+				return "fragment fields inconsistent", fmt.Sprintf("fragment %d carries index %d count %d sequence %d (expected %d, %d, %d)", i+1, *lp.FragIndex, *lp.FragCount, *lp.Sequence, i, len(frames), base+uint64(i))
+			}
+		}
+		got = append(got, lp.Fragment.Join()...)
+	}
+	if string(got) != string(want) {
+		return "fragments do not reassemble to the packet", fmt.Sprintf("fragments reassemble to %d bytes that differ from the %d-byte packet", len(got), len(want))
+	}
+	return "", ""
 }
